@@ -44,6 +44,29 @@ def replay_finding(e):
     return st == "ok" and w["bad_fragment"] in out
 
 
+def deep_parameter_only(r):
+    """the unit fails to compile ONLY because a template parameter that stands two or more levels deep in template arguments of the
+    interface (`std::vector<std::vector<T>>`) was left unsubstituted: every compiler error names such a parameter as undeclared or is the
+    follow-up `template argument N is invalid`"""
+    b = r["bad"]
+    comp = b.get("compiler", "")
+    params = set(re.findall(r'template<\s*(\w+)\s*=', r["text"])) | set(re.findall(r',\s*(\w+)\s*=\s*\{', r["text"]))
+    deep = {p_ for p_ in params if re.search(r'<[^<>;()]*<[^<>;()]*\b%s\b' % re.escape(p_), r["text"])}
+    if not comp or not deep:
+        return False
+    errs = [l for l in comp.splitlines() if "error" in l]
+    if not errs:
+        return False
+    for l in errs:
+        m = re.search(r"error: \W(\w+)\W was not declared in this scope", l)
+        if m and m.group(1) in deep:
+            continue
+        if re.search(r"error: template argument \d+ is invalid", l):
+            continue
+        return False
+    return True
+
+
 def compile_stream(ctx, n, off=0, collect=True):
     import c09_compile
     from common import REPO
@@ -61,6 +84,18 @@ def compile_stream(ctx, n, off=0, collect=True):
             first = first or v
             if collect:
                 ctx.spec_fail(v["what"], input=r["text"])
+        elif r["bad"] and deep_parameter_only(r):
+            # the listed finding C09-parameter-two-levels-deep-left-unsubstituted, met on a generated input
+            if collect:
+                ctx.count("compile_known_deep_parameter")
+                e = next((e for e in ctx.known if e["id"] == "C09-parameter-two-levels-deep-left-unsubstituted" and e.get("kind") != "fixed"), None)
+                if e is not None:
+                    ctx.known_hit(e, detail=r["text"][:200])
+                else:
+                    b = dict(r["bad"])
+                    ctx.spec_fail(b.pop("what"), **b)
+            elif not any(e["id"] == "C09-parameter-two-levels-deep-left-unsubstituted" and e.get("kind") != "fixed" for e in ctx.known):
+                first = first or dict(r["bad"])
         elif r["bad"]:
             first = first or dict(r["bad"])
             if collect:
